@@ -47,10 +47,13 @@ from vf import mimeref
 MIME_BY_EXT = {e: mimeref.mime_for_ext(e) for e in mimeref.KNOWN_EXTS + mimeref.UNKNOWN_EXTS}
 
 
+GM_STYLES = ["crlf", "lf", "crlf-unterminated", "lf-unterminated"]
+
+
 def gen_site(rng: random.Random, scratch: str, name_classes=("plain", "spaces", "reserved",
                                                             "nonutf8", "unicode"),
              nfiles: int = 10, with_zip: bool = True, with_mail: bool = True,
-             with_exec: bool = True, sizes=(0, 1, 5, 100, 4096, 4097, 9000)) -> SiteModel:
+             with_exec: bool = True, sizes=(0, 1, 5, 100, 4096, 4097, 9000), gm_style: typing.Optional[str] = None) -> SiteModel:
     m = SiteModel()
     t = m.tree
     m.add(b"/", "menu", tags=["dir", "root"])
@@ -107,11 +110,20 @@ def gen_site(rng: random.Random, scratch: str, name_classes=("plain", "spaces", 
     m.add(b"/gm", "menu", tags=["dir", "gophermap"])
     t.file("gm/local.txt", "local\n")
     m.add(b"/gm/local.txt", "doc", b"local\n", mime="text/plain", tags=["file"])
-    t.file("gm/gophermap",
-           "Welcome to the map\n\n0Local file\tlocal.txt\n0Absolute\t/umn/one.txt\n"
-           "1Remote dir\t/x\tgopher.example.org\t70\n1Up\t/umn\nhWeb\tURL:http://example.org/a?b=c\n"
-           "7Search it\t/gm/local.txt\n"
-           "hMail the admin\tURL:mailto:admin@example.org\nhNews group\tURL:news:comp.infosystems.gopher\n")
+    gmtext = ("Welcome to the map\n\n0Local file\tlocal.txt\n0Absolute\t/umn/one.txt\n"
+              "1Remote dir\t/x\tgopher.example.org\t70\n1Up\t/umn\nhWeb\tURL:http://example.org/a?b=c\n"
+              "7Search it\t/gm/local.txt\n"
+              "hMail the admin\tURL:mailto:admin@example.org\nhNews group\tURL:news:comp.infosystems.gopher\n"
+              "0local.txt\t\n0Last line\tlocal.txt\n")
+    # as written on Unix, on DOS, or without a final line terminator
+    gmstyle = rng.choice(GM_STYLES)
+    if gm_style is not None:
+        gmstyle = gm_style
+    if gmstyle.startswith("crlf"):
+        gmtext = gmtext.replace("\n", "\r\n")
+    if gmstyle.endswith("unterminated"):
+        gmtext = gmtext.rstrip("\r\n")
+    t.file("gm/gophermap", gmtext)
     if with_mail:
         subj = ["Hello world", "Re: A & B <tag>", "third  message"]
         t.file("mail.mbox", trees.make_mbox(subj, scratch))
